@@ -789,16 +789,18 @@ class LabelList(Model):
                 if not it.ctx.choose(_simp(cnt(xt) > 0)):
                     it.raise_('ValueError', 'list.remove(x): x not in list')
                 S = old.copy()
-                # positions after the first occurrence shift left: positional view becomes a fresh symbol
-                # constrained only through the count view (order facts are left to the bounded layer)
-                e2 = z3.Function(it.ctx.fresh(I, w + '_elem_r').decl().name(), I, LabelSort)
+                # list.remove(x): the FIRST occurrence (position p) disappears, later positions shift left by one
+                p = it.ctx.fresh(I, w + '_rmpos')
+                j = z3.Int('j!rm')
+                it.ctx.assume(z3.And(p >= 0, p < n, elem(p) == xt))
+                it.ctx.assume(z3.ForAll([j], z3.Implies(z3.And(j >= 0, j < p), elem(j) != xt)))
                 c2 = bump1(cnt, lambda l: l == xt, -1)
+                e2 = lambda i, elem=elem, p=p: z3.If(i < p, elem(i), elem(i + 1))
                 setattr(S, w + '_n', n - 1)
-                setattr(S, w + '_elem', lambda i: e2(i))
+                setattr(S, w + '_elem', e2)
                 setattr(S, w + '_cnt', c2)
                 h.S = S
-                j = z3.Int('j!rm')
-                it.ctx.assume(z3.ForAll([j], z3.Implies(z3.And(j >= 0, j < n - 1), c2(e2(j)) >= 1)))
+                it.ctx.assume(z3.ForAll([j], z3.Implies(z3.And(j >= 0, j < n - 1), c2(e2(j)) >= 1)))       # representation fact of the shorter list
             return Native('labels.remove', remove)
         raise Unsupported(f'label list method {name}')
 
